@@ -106,8 +106,59 @@ def mergeKeys (fuel : Nat) (ka kb : List Nat) (i j : Nat) : List (Nat × Option 
 
 def tokOf (h : Heap) : Nat := 1000 + 7 * h.bufs.length
 
+/-- names of the modelled tenpy operations -/
+inductive CN where
+  | leg_new
+  | leg_pipe
+  | leg_conj
+  | leg_copy
+  | leg_to_LegCharge
+  | leg_flip
+  | leg_sort
+  | leg_bunch
+  | leg_project
+  | leg_extend
+  | new
+  | copy
+  | transpose
+  | conj
+  | iconj
+  | add_trivial_leg
+  | take_slice
+  | scale_axis
+  | astype
+  | replace_label
+  | neg
+  | zeros_like
+  | gauge_total_charge
+  | change_charge
+  | drop_charge_one
+  | extend
+  | deep_fresh
+  | fresh
+  | to_LegCharge_legs
+  | concat_views
+  | resort
+  | itranspose
+  | iswapaxes
+  | iscale_axis
+  | iunary
+  | iscale_zero
+  | iscale_prefactor
+  | iadd
+  | ipurge_zeros
+  | iproject
+  | setitem_scalar
+  | setitem_write
+  | ilabels
+  | ibinary
+deriving Repr, DecidableEq, Inhabited
+
+def CN.ofString (s : String) : Option CN :=
+  [("leg.new", CN.leg_new), ("leg.pipe", CN.leg_pipe), ("leg.conj", CN.leg_conj), ("leg.copy", CN.leg_copy), ("leg.to_LegCharge", CN.leg_to_LegCharge), ("leg.flip", CN.leg_flip), ("leg.sort", CN.leg_sort), ("leg.bunch", CN.leg_bunch), ("leg.project", CN.leg_project), ("leg.extend", CN.leg_extend), ("new", CN.new), ("copy", CN.copy), ("transpose", CN.transpose), ("conj", CN.conj), ("iconj", CN.iconj), ("add_trivial_leg", CN.add_trivial_leg), ("take_slice", CN.take_slice), ("scale_axis", CN.scale_axis), ("astype", CN.astype), ("replace_label", CN.replace_label), ("neg", CN.neg), ("zeros_like", CN.zeros_like), ("gauge_total_charge", CN.gauge_total_charge), ("change_charge", CN.change_charge), ("drop_charge_one", CN.drop_charge_one), ("extend", CN.extend), ("deep_fresh", CN.deep_fresh), ("fresh", CN.fresh), ("to_LegCharge_legs", CN.to_LegCharge_legs), ("concat_views", CN.concat_views), ("resort", CN.resort), ("itranspose", CN.itranspose), ("iswapaxes", CN.iswapaxes), ("iscale_axis", CN.iscale_axis), ("iunary", CN.iunary), ("iscale_zero", CN.iscale_zero), ("iscale_prefactor", CN.iscale_prefactor), ("iadd", CN.iadd), ("ipurge_zeros", CN.ipurge_zeros), ("iproject", CN.iproject), ("setitem_scalar", CN.setitem_scalar), ("setitem_write", CN.setitem_write), ("ilabels", CN.ilabels), ("ibinary", CN.ibinary)].lookup s
+
 /-- result of a call: the operations and the reference of the resulting object (tensor or leg) -/
-def callSt (cy : Bool) (s : St) (name : String) (x : Args) : St × Ref :=
+def callSt (cy : Bool) (s : St) (name : CN) (x : Args) : St × Ref :=
   let h := s.h
   let a := x.A 0
   let A := h.arr a
@@ -115,101 +166,104 @@ def callSt (cy : Bool) (s : St) (name : String) (x : Args) : St × Ref :=
   let tok := tokOf h
   match name with
   -- ------------------------------------------------------------------ legs (ch)
-  | "leg.new" =>      -- LegCharge(...) / from_qind / from_qflat: `np.array(slices)`, `np.array(charges)` copy
+  | .leg_new =>      -- LegCharge(...) / from_qind / from_qflat: `np.array(slices)`, `np.array(charges)` copy
     s.emit (.leg (freshLeg tok (if x.B 0 then 1 else -1) (x.B 1) (x.B 2)))
-  | "leg.pipe" =>     -- LegPipe(legs): new slices/charges, `self.legs = tuple(legs)`
+  | .leg_pipe =>     -- LegPipe(legs): new slices/charges, `self.legs = tuple(legs)`
     s.emit (.leg { freshLeg tok (if x.B 0 then 1 else -1) (x.B 1) (x.B 2) with sub := .refs x.g })
-  | "leg.conj" => conjLeg s (x.G 0)
-  | "leg.copy" =>
+  | .leg_conj => conjLeg s (x.G 0)
+  | .leg_copy =>
     let L := h.leg (x.G 0)
     s.emit (.leg { src := x.G 0, shSlices := true, shCharges := true, qconj := L.qconj, sorted := L.sorted,
                    bunched := L.bunched, sub := .same })
-  | "leg.to_LegCharge" =>
+  | .leg_to_LegCharge =>
     let L := h.leg (x.G 0)
     s.emit (.leg { src := x.G 0, shSlices := true, shCharges := true, qconj := L.qconj, sorted := L.sorted,
                    bunched := L.bunched, sub := .none })
-  | "leg.flip" =>     -- flip_charges_qconj: `res.charges = make_valid(-self.charges)`, slices shared
+  | .leg_flip =>     -- flip_charges_qconj: `res.charges = make_valid(-self.charges)`, slices shared
     let L := h.leg (x.G 0)
     s.emit (.leg { src := x.G 0, shSlices := true, shCharges := false, qconj := -L.qconj, sorted := false,
                    bunched := L.bunched, sub := .same, tok := tok })
-  | "leg.sort" =>     -- sort(bunch): `if self.sorted and ((not bunch) or self.bunched): return …, self`
+  | .leg_sort =>     -- sort(bunch): `if self.sorted and ((not bunch) or self.bunched): return …, self`
     let L := h.leg (x.G 0)
     let bunch := x.B 0
     s.emit (.leg { src := x.G 0, retSelf := L.sorted && (!bunch || L.bunched), qconj := L.qconj, sorted := true,
                    bunched := x.B 1, tok := tok })
-  | "leg.bunch" =>    -- bunch(): `if self.bunched: return …, self`
+  | .leg_bunch =>    -- bunch(): `if self.bunched: return …, self`
     let L := h.leg (x.G 0)
     s.emit (.leg { src := x.G 0, retSelf := L.bunched, qconj := L.qconj, sorted := L.sorted, bunched := true, tok := tok })
-  | "leg.project" =>  -- project(mask): charges[keep] and new slices
+  | .leg_project =>  -- project(mask): charges[keep] and new slices
     let L := h.leg (x.G 0)
     s.emit (.leg { src := x.G 0, qconj := L.qconj, sorted := L.sorted, bunched := x.B 0, tok := tok })
-  | "leg.extend" =>   -- extend(extra): LegCharge(chinfo, new_slices, new_charges)
+  | .leg_extend =>   -- extend(extra): LegCharge(chinfo, new_slices, new_charges)
     let L := h.leg (x.G 0)
     s.emit (.leg (freshLeg tok L.qconj (x.B 0) (x.B 1)))
   -- ------------------------------------------------------------------ constructors (npc)
-  | "new" =>          -- Array(legs) + from_func: `self.legs = list(legcharges)`
+  | .new =>          -- Array(legs) + from_func: `self.legs = list(legcharges)`
     s.emit (.derive { srcs := [], legs := .newList (x.g.map LegSrc.ref), qtotal := .fresh [tok], labels := .fresh [tok + 1],
                       qdata := .fresh (x.L 0), data := .newList (freshBlks (tok + 2) (x.L 0).length),
                       dtype := some (x.N 0), qsorted := some (x.B 0) })
   -- ------------------------------------------------------------------ not in place (npc)
-  | "copy" =>         -- Array.copy(deep)
+  | .copy =>         -- Array.copy(deep)
     if x.B 0 then
       s.emit (.derive { srcs := [a], data := .newList (copies 0 n) })
     else
       s.emit (.derive { srcs := [a], qtotal := .shared 0, qdata := .shared 0, data := .sharedList 0 })
-  | "transpose" =>    -- copy(deep=True) then itranspose; trivial permutation: just the deep copy
+  | .transpose =>    -- copy(deep=True) then itranspose; trivial permutation: just the deep copy
     if x.B 0 then s.emit (.derive { srcs := [a], data := .newList (copies 0 n) })
     else s.emit (.derive { srcs := [a], legs := .newList ((x.L 0).map (LegSrc.src 0)), labels := .fresh [tok],
                            qdata := .fresh (x.L 1), data := .newList (copies 0 n), qsorted := some false })
-  | "conj" =>         -- conj(): complex -> unary_blockwise on a shallow copy (keeps `_qdata`!); real -> deep copy
+  | .conj =>         -- conj(): complex -> unary_blockwise on a shallow copy (keeps `_qdata`!); real -> deep copy
     let (s, ls) := conjLegs s (h.list A.legs)
     let cplx := x.B 0
     s.emit (.derive { srcs := [a], legs := .newList (ls.map LegSrc.ref), qtotal := .fresh [tok], labels := .fresh [tok + 1],
                       qdata := if cplx then .shared 0 else .copy 0,
                       data := .newList (if cplx then freshBlks (tok + 2) n else copies 0 n) })
-  | "iconj" =>
+  | .iconj =>
     let (s, ls) := conjLegs s (h.list A.legs)
     s.emit (.inplace a { legs := .rebind (ls.map LegSrc.ref), qtotal := .rebind (.fresh [tok]),
                          labels := .rebind (.fresh [tok + 1]),
                          data := if x.B 0 then .rebind (freshBlks (tok + 2) n) else .keep })
-  | "add_trivial_leg" =>  -- shallow copy; `res.legs.insert`; `res._data = res._data[:]` + reshape (views); new `_qdata`
+  | .add_trivial_leg =>  -- shallow copy; `res.legs.insert`; `res._data = res._data[:]` + reshape (views); new `_qdata`
     let (s, l) := s.emit (.leg (freshLeg tok (if x.B 0 then 1 else -1) true true))
     let ax := x.N 0
     let ls := srcLegs 0 (rank h a)
     s.emit (.derive { srcs := [a], legs := .newList (ls.take ax ++ [LegSrc.ref l] ++ ls.drop ax), qtotal := .shared 0,
                       labels := .fresh [tok + 2], qdata := .fresh (x.L 0), data := .newList (views 0 n) })
-  | "take_slice" =>   -- deep copy, then views `block[sl]` of the copies; l0 = kept axes, l1 = kept blocks, l2 = keys
+  | .take_slice =>   -- deep copy, then views `block[sl]` of the copies; l0 = kept axes, l1 = kept blocks, l2 = keys
     if (x.L 3).isEmpty then s.emit (.derive { srcs := [a], data := .newList (copies 0 n) })
     else s.emit (.derive { srcs := [a], legs := .newList ((x.L 0).map (LegSrc.src 0)), qtotal := .fresh [tok],
                            labels := .fresh [tok + 1], qdata := .fresh (x.L 2),
                            data := .newList ((x.L 1).map (BlkSrc.copy 0)) })
-  | "scale_axis" =>   -- shallow copy, `res._qdata = res._qdata.copy()`, iscale_axis rebinds `_data`
+  | .scale_axis =>   -- shallow copy, `res._qdata = res._qdata.copy()`, iscale_axis rebinds `_data`
     s.emit (.derive { srcs := [a], qtotal := .shared 0, data := .newList (freshBlks tok n), dtype := some (x.N 0) })
-  | "astype" =>       -- shallow copy, `_qdata.copy()`, blocks converted only `if copy or dtype != self.dtype`
+  | .astype =>       -- shallow copy, `_qdata.copy()`, blocks converted only `if copy or dtype != self.dtype`
     let conv := x.B 0 || x.N 0 != A.dtype
     s.emit (.derive { srcs := [a], qtotal := .shared 0, data := if conv then .newList (copies 0 n) else .sharedList 0,
                       dtype := some (x.N 0) })
-  | "replace_label" => -- copy(deep=False).ireplace_label
+  | .replace_label => -- copy(deep=False).ireplace_label
     s.emit (.derive { srcs := [a], qtotal := .shared 0, labels := .fresh [tok], qdata := .shared 0, data := .sharedList 0 })
-  | "neg" =>          -- unary_blockwise: shallow copy, new blocks
+  | .neg =>          -- unary_blockwise: shallow copy, new blocks
     s.emit (.derive { srcs := [a], qtotal := .shared 0, qdata := .shared 0, data := .newList (freshBlks tok n) })
-  | "zeros_like" =>   -- shallow copy with `_data = []`, new empty `_qdata`
+  | .zeros_like =>   -- shallow copy with `_data = []`, new empty `_qdata`
     s.emit (.derive { srcs := [a], qtotal := .shared 0, qdata := .fresh [], data := .newList [], qsorted := some true })
-  | "gauge_total_charge" => -- shallow copy; new qtotal; `res.legs[ax] = LegCharge.from_qind(…)`
+  | .gauge_total_charge => -- shallow copy; new qtotal; `res.legs[ax] = LegCharge.from_qind(…)`
     let (s, l) := s.emit (.leg (freshLeg tok (if x.B 0 then 1 else -1) (x.B 1) (x.B 2)))
     let ls := srcLegs 0 (rank h a)
     s.emit (.derive { srcs := [a], legs := .newList (ls.set (x.N 0) (LegSrc.ref l)), qtotal := .fresh [tok + 2],
                       qdata := .shared 0, data := .sharedList 0 })
-  | "change_charge" | "drop_charge_one" | "extend" =>
+  | .change_charge | .drop_charge_one | .extend =>
     -- deep copy; every leg (or the one leg, code list l0) replaced by a new LegCharge (repaired make_valid copies)
     let (s, ls) := emitLegs s ((x.L 1).zipIdx.map fun (f, i) => freshLeg (tok + 2 * i) (if f % 2 = 1 then 1 else -1) (f / 2 % 2 = 1) (f / 4 % 2 = 1))
     s.emit (.derive { srcs := [a], legs := .newList (layout h [a] ls (x.L 0)),
-                      qtotal := if name == "drop_charge_one" then .fresh [tok + 100] else .copy 0,
+                      qtotal := if name == .drop_charge_one then .fresh [tok + 100] else .copy 0,
+                      -- (`_qdata` is copied; for `extend` the abstract row keys are re-computed because they are
+                      --  F-stride numbers w.r.t. the block numbers of the legs, and one leg got more blocks)
+                      qdata := if name == .extend then .fresh (x.L 2) else .copy 0,
                       data := .newList (copies 0 n) })
-  | "deep_fresh" =>   -- a + b, a - b, a * s: deep copy of operand 0, then every block and `_qdata` replaced
+  | .deep_fresh =>   -- a + b, a - b, a * s: deep copy of operand 0, then every block and `_qdata` replaced
     s.emit (.derive { srcs := [a], qdata := .fresh (x.L 0), data := .newList (freshBlks tok (x.L 0).length),
                       dtype := some (x.N 0), qsorted := some (x.B 0) })
-  | "fresh" =>
+  | .fresh =>
     -- everything new except the leg *objects* taken from the operands (tensordot, outer, trace, squeeze, __getitem__,
     -- add_charge, drop_charge(None), permute, combine_legs after a transposition, …): l0 = layout, l1 = keys,
     -- l2 = flag codes of legs created by the call, g = pipes: incoming legs given as l3.. (one list per pipe)
@@ -224,7 +278,7 @@ def callSt (cy : Bool) (s : St) (name : String) (x : Args) : St × Ref :=
                       qtotal := if x.B 0 then .shared 0 else .fresh [tok + 100], labels := .fresh [tok + 101],
                       qdata := .fresh (x.L 1), data := .newList (freshBlks (tok + 102) (x.L 1).length),
                       dtype := some (x.N 0), qsorted := some (x.B 1) })
-  | "to_LegCharge_legs" =>
+  | .to_LegCharge_legs =>
     -- sort_legcharge: `cp.legs[ax] = pipe.to_LegCharge()` on the fresh result of combine_legs: the pipe's arrays are
     -- shared with a new LegCharge object. a0 = fresh tensor, l0 = axes
     let ls := h.list A.legs
@@ -234,7 +288,7 @@ def callSt (cy : Bool) (s : St) (name : String) (x : Args) : St × Ref :=
       { src := p, shSlices := true, shCharges := true, qconj := P.qconj, sorted := P.sorted, bunched := P.bunched })
     let ls' := ((x.L 0).zip news).foldl (fun acc (ax, r) => acc.set ax r) ls
     s.emit (.inplace a { legs := .mutate (ls'.map LegSrc.ref), labels := .rebind (.fresh [tok]) })
-  | "concat_views" =>
+  | .concat_views =>
     -- concatenate(copy=False): `np.asarray(t, dtype)` is `t` for the operands that already have the result dtype
     -- (flags l2), a converted copy for the others; qtotal comes from `arrays[0].zeros_like()` (shallow copy)
     let (s, l) := s.emit (.leg (freshLeg tok (if x.B 2 then 1 else -1) (x.B 3) (x.B 4)))
@@ -243,37 +297,37 @@ def callSt (cy : Bool) (s : St) (name : String) (x : Args) : St × Ref :=
     s.emit (.derive { srcs := x.a, legs := .newList ((srcLegs 0 (rank h a)).set (x.N 1) (LegSrc.ref l)), qtotal := .shared 0,
                       qdata := .fresh (x.L 1), data := .newList blks, dtype := some (x.N 0), qsorted := some false })
   -- ------------------------------------------------------------------ re-sorting of operands
-  | "resort" =>       -- isort_qdata (b0) and/or _imake_contiguous (b1, flags l0)
+  | .resort =>       -- isort_qdata (b0) and/or _imake_contiguous (b1, flags l0)
     s.emit (.resort a (x.B 0) (if x.B 1 then some ((x.L 0).map (· != 0)) else none))
   -- ------------------------------------------------------------------ in place (npc / pyx)
-  | "itranspose" =>   -- npc: views `np.transpose(block)`; pyx: `PyArray_GETCONTIGUOUS(transpose)`: a view only if contiguous
+  | .itranspose =>   -- npc: views `np.transpose(block)`; pyx: `PyArray_GETCONTIGUOUS(transpose)`: a view only if contiguous
     let vf := x.L 2
     let blks := (List.range n).map fun i =>
       if !cy || vf.getD i 0 != 0 then BlkSrc.view 0 i else BlkSrc.fresh (tok + i)
     s.emit (.inplace a { legs := .rebind ((x.L 0).map (LegSrc.src 0)), labels := .rebind (.fresh [tok + 500]),
                          qdata := .rebind (.fresh (x.L 1)), data := .rebind blks, qsorted := some false })
-  | "iswapaxes" =>    -- `legs[axis1], legs[axis2] = …` and `labels[…] = …` write the existing lists; views of the blocks
+  | .iswapaxes =>    -- `legs[axis1], legs[axis2] = …` and `labels[…] = …` write the existing lists; views of the blocks
     let i := x.N 0
     let j := x.N 1
     let ls := srcLegs 0 (rank h a)
     let ls' := (ls.set i (ls.getD j (LegSrc.src 0 0))).set j (ls.getD i (LegSrc.src 0 0))
     s.emit (.inplace a { legs := .mutate ls', labels := .mutate (.fresh [tok]), qdata := .rebind (.fresh (x.L 0)),
                          data := .rebind (views 0 n), qsorted := some false })
-  | "iscale_axis" | "iunary" =>    -- new list of new blocks
+  | .iscale_axis | .iunary =>    -- new list of new blocks
     s.emit (.inplace a { data := .rebind (freshBlks tok n), dtype := some (x.N 0) })
-  | "iscale_zero" =>  -- iscale_prefactor(0.)
+  | .iscale_zero =>  -- iscale_prefactor(0.)
     s.emit (.inplace a { data := .rebind [], qdata := .rebind (.fresh []), qsorted := some true })
-  | "iscale_prefactor" =>
+  | .iscale_prefactor =>
     -- npc: iunary_blockwise(np.multiply): new blocks. pyx: astype if the dtype changes (new blocks), else
-    -- `_imake_contiguous` (emitted separately as "resort") and BLAS scal **in place** on every block
+    -- `_imake_contiguous` (emitted separately as .resort) and BLAS scal **in place** on every block
     if !cy || x.B 0 then s.emit (.inplace a { data := .rebind (freshBlks tok n), dtype := some (x.N 0) })
     else s.emit (.inplace a { wblocks := (List.range n).map (fun i => (i, tok + i)) })
-  | "iadd" =>
-    -- self += prefactor*other, after both were sorted ("resort" emitted before). a0 = self, a1 = other (or its
-    -- scaled/converted temporary, which the harness registers with "copy"/"astype" first).
+  | .iadd =>
+    -- self += prefactor*other, after both were sorted (.resort emitted before). a0 = self, a1 = other (or its
+    -- scaled/converted temporary, which the harness registers with .copy/.astype first).
     -- npc (ibinary_blockwise): new blocks everywhere; `_qdata` kept iff the block structure is identical.
     -- pyx: BLAS axpy in place on the common blocks, `tb.copy()` for blocks only in other, same objects otherwise;
-    --      b0: self's blocks were converted to a new dtype before (fresh list of fresh blocks, "iunary" emitted before)
+    --      b0: self's blocks were converted to a new dtype before (fresh list of fresh blocks, .iunary emitted before)
     let o := x.A 1
     let ka := h.buf A.qdata
     let kb := h.buf (h.arr o).qdata
@@ -291,12 +345,12 @@ def callSt (cy : Bool) (s : St) (name : String) (x : Args) : St × Ref :=
                                      | (_, some i, _) => BlkSrc.view 0 i
                                      | (k, none, _) => BlkSrc.fresh (tok + 500 + k)),
                            qdata := .rebind (.fresh (m.map (·.1))) })
-  | "ipurge_zeros" => -- new list of the kept blocks, `_qdata[keep]` (a copy); nothing at all when there is no block
+  | .ipurge_zeros => -- new list of the kept blocks, `_qdata[keep]` (a copy); nothing at all when there is no block
     if n == 0 then (s, a) else
     let ks := h.buf A.qdata
     s.emit (.inplace a { data := .rebind ((x.L 0).map (BlkSrc.view 0)),
                          qdata := .rebind (.fresh ((x.L 0).map (fun i => ks.getD i 0))) })
-  | "iproject" =>     -- `_qdata` copied first; `self.legs[a] = l.project(m)` writes the legs list; np.compress copies
+  | .iproject =>     -- `_qdata` copied first; `self.legs[a] = l.project(m)` writes the legs list; np.compress copies
     let ls := h.list A.legs
     let (s, news) := emitLegs s ((x.L 0).zipIdx.map fun (ax, i) =>
       let P := h.leg (ls.getD ax 0)
@@ -304,7 +358,7 @@ def callSt (cy : Bool) (s : St) (name : String) (x : Args) : St × Ref :=
     let ls' := ((x.L 0).zip news).foldl (fun acc (ax, r) => acc.set ax r) ls
     s.emit (.inplace a { legs := .mutate (ls'.map LegSrc.ref), qdata := .rebind (.fresh (x.L 1)),
                          data := .rebind (freshBlks (tok + 100) (x.L 1).length) })
-  | "setitem_scalar" =>
+  | .setitem_scalar =>
     -- a[i, j] = v: write into the block (b0, n0 = its index) or get_block(insert=True): `self._data.append(res)`
     -- (the existing list, b1) / `self._data = self._data + [res]`, `self._qdata = np.append(…)`
     if x.B 0 then s.emit (.inplace a { wblocks := [(x.N 0, tok)] })
@@ -312,30 +366,29 @@ def callSt (cy : Bool) (s : St) (name : String) (x : Args) : St × Ref :=
       let blks := views 0 n ++ [BlkSrc.fresh tok]
       s.emit (.inplace a { data := if x.B 1 then .mutate blks else .rebind blks, qdata := .rebind (.fresh (x.L 0)),
                            qsorted := some false })
-  | "setitem_write" =>
+  | .setitem_write =>
     -- first half of a[slices] = other: zero + overwrite existing blocks (l0), insert missing ones (n0 many, keys l1)
     let blks := views 0 n ++ freshBlks tok (x.N 0)
     if x.N 0 == 0 then s.emit (.inplace a { others := x.a.drop 1, wblocks := (x.L 0).map (fun i => (i, tok + i)) })
     else s.emit (.inplace a { others := x.a.drop 1, wblocks := (x.L 0).map (fun i => (i, tok + i)),
                               data := if x.B 1 then .mutate blks else .rebind blks, qdata := .rebind (.fresh (x.L 1)),
                               qsorted := some false })
-  | "ilabels" =>      -- iset_leg_labels / ireplace_label(s) / idrop_labels: `self._labels = <new list>`
+  | .ilabels =>      -- iset_leg_labels / ireplace_label(s) / idrop_labels: `self._labels = <new list>`
     s.emit (.inplace a { labels := .rebind (.fresh [tok]) })
-  | "ibinary" =>      -- ibinary_blockwise (Python in both kernels), operands sorted before
+  | .ibinary =>      -- ibinary_blockwise (Python in both kernels), operands sorted before
     let o := x.A 1
     let ka := h.buf A.qdata
     let kb := h.buf (h.arr o).qdata
     let m := mergeKeys (ka.length + kb.length + 1) ka kb 0 0
     s.emit (.inplace a { others := [o], data := .rebind (freshBlks tok m.length),
                          qdata := if ka == kb then .keep else .rebind (.fresh (m.map (·.1))), dtype := some (x.N 0) })
-  | _ => (s, 0)
 
-def callOps (cy : Bool) (h : Heap) (name : String) (x : Args) : List Op := (callSt cy { h := h } name x).1.ops
-def callRes (cy : Bool) (h : Heap) (name : String) (x : Args) : Ref := (callSt cy { h := h } name x).2
+def callOps (cy : Bool) (h : Heap) (name : CN) (x : Args) : List Op := (callSt cy { h := h } name x).1.ops
+def callRes (cy : Bool) (h : Heap) (name : CN) (x : Args) : Ref := (callSt cy { h := h } name x).2
 
 /-- the calls of the table that are in-place methods of operand 0 -/
-def inplaceCalls : List String :=
-  ["iconj", "itranspose", "iswapaxes", "iscale_axis", "iunary", "iscale_zero", "iscale_prefactor", "iadd",
-   "ipurge_zeros", "iproject", "setitem_scalar", "setitem_write", "ilabels", "ibinary", "to_LegCharge_legs"]
+def inplaceCalls : List CN :=
+  [.iconj, .itranspose, .iswapaxes, .iscale_axis, .iunary, .iscale_zero, .iscale_prefactor, .iadd,
+   .ipurge_zeros, .iproject, .setitem_scalar, .setitem_write, .ilabels, .ibinary, .to_LegCharge_legs]
 
 end TenpyModel.C03
